@@ -519,6 +519,89 @@ def collect_sites(F, name):
     return out
 
 
+COMMUTATIVE = {"Add", "Mul", "BitAnd", "BitOr", "BitXor", "Eq", "Ne"}
+
+
+def _short_fn(p):
+    p = normalise_api(p or "?")
+    segs = [x for x in re.split(r"::", p) if x and x != "<>"]
+    return "::".join(segs[-2:]) if len(segs) >= 2 else p
+
+
+def expr_sig(A, op, depth=0):
+    """canonical rendering of the expression that computes a MIR operand, following single definitions: independent of local names,
+    statement order, references and let-hoisting; sensitive to the operations, callees, constants and fields involved."""
+    if op[0] == "K":
+        if len(op) > 3 and isinstance(op[3], (int, bool)):
+            return str(int(op[3]))
+        return "const"
+    if op[0] not in ("C", "M"):
+        return "?"
+    return place_sig(A, op[1], depth)
+
+
+def place_sig(A, pl, depth=0):
+    base = local_sig(A, pl[0], depth)
+    for pr in pl[1:]:
+        if isinstance(pr, list):
+            if pr[0] == ".":
+                base = "%s.%s" % (base, pr[1])
+            elif pr[0] in ("[]", "idx", "index"):
+                base = "%s[]" % base
+            elif pr[0] == "as":
+                base = "%s as %s" % (base, pr[1] if len(pr) > 1 else "")
+        elif pr == "*":
+            pass
+    return base
+
+
+def local_sig(A, l, depth=0):
+    B = A.B
+    if depth > 7:
+        return "..."
+    if B.is_arg(l):
+        return "arg%d" % l
+    defs = B.defs.get(l, [])
+    if len(defs) != 1:
+        return "var"
+    bi, si, kind, st = defs[0]
+    if kind == "call":
+        return "%s(%s)" % (_short_fn(st["f"].get("p")), ",".join(expr_sig(A, a, depth + 1) for a in st.get("args", [])))
+    rv = st[2]
+    k = rv[0]
+    if k == "Use":
+        return expr_sig(A, rv[1], depth)
+    if k == "Ref" or k == "AddrOf" or k == "RawPtr":
+        return place_sig(A, rv[2], depth)
+    if k == "Cast":
+        return expr_sig(A, rv[2], depth)
+    if k == "Bin":
+        o = rv[1].replace("WithOverflow", "").replace("Unchecked", "")
+        a, b = expr_sig(A, rv[2], depth + 1), expr_sig(A, rv[3], depth + 1)
+        if o in COMMUTATIVE and b < a:
+            a, b = b, a
+        return "%s(%s,%s)" % (o, a, b)
+    if k == "Un":
+        if rv[1] == "PtrMetadata":
+            return "len(%s)" % expr_sig(A, rv[2], depth + 1)
+        return "%s(%s)" % (rv[1], expr_sig(A, rv[2], depth + 1))
+    if k == "Agg":
+        nm = rv[1][1].split("::")[-1] if isinstance(rv[1], list) and len(rv[1]) > 1 and isinstance(rv[1][1], str) else str(rv[1][0] if isinstance(rv[1], list) else rv[1])
+        return "%s{%s}" % (nm, ",".join(expr_sig(A, a, depth + 1) for a in rv[2]))
+    if k == "Other":
+        return re.sub(r"_\d+", "_", str(rv[1]))[:40]
+    return k
+
+
+def site_opsig(A, s):
+    """operand signature of a panic-capable site (the index/range/arithmetic operands, the receiver of unwrap, ...)"""
+    ops = s.ops or []
+    try:
+        return [expr_sig(A, o) for o in ops if isinstance(o, list)]
+    except Exception as e:      # never let the signature hide a site
+        return ["<sig failed: %s>" % e]
+
+
 def normalise_api(p):
     p = re.sub(r"<[^<>]*(<[^<>]*(<[^<>]*>[^<>]*)*>[^<>]*)*>", "<>", p)
     return p
